@@ -47,7 +47,8 @@ def gen_c06_random(rnd, tier):
                     pts.pop()
         for _r in range(6 if tier == 'quick' else 10):
             o = [rnd.randint(-3, 66), rnd.randint(-3, 66), 0]
-            out.append({'m': 'ray', 'op': 'cast', 'pts': pts, 'sc': rnd.choice((0, -3, 2)), 'o': o, 'dirs': DIRS[:4] + rnd.sample(DIRS[4:], 3), 'nzd': rnd.choice((0, 1))})
+            out.append({'m': 'ray', 'op': 'cast', 'pts': pts, 'sc': rnd.choice((0, -3, 2)), 'o': o, 'dirs': DIRS[:4] + rnd.sample(DIRS[4:], 3), 'nzd': rnd.choice((0, 1)),
+                        'off': rnd.choice(([0, 0, 0], [100000, -65536, 0], [-3000, 131072, 0]))})
     return out
 
 
@@ -67,7 +68,8 @@ def gen_c06_vertex_lines(rnd, tier):
                 ds = rnd.sample(dirs, 3 if tier == 'quick' else 8)
                 for d in ds:
                     out.append({'m': 'ray', 'op': 'cast', 'pts': pts, 'sc': rnd.choice((0, -3, 2)),
-                                'o': [v[0] + k * d[0], v[1] + k * d[1], 0], 'dirs': [d]})
+                                'o': [v[0] + k * d[0], v[1] + k * d[1], 0], 'dirs': [d],
+                                'off': rnd.choice(([0, 0, 0], [0, 0, 0], [100000, -65536, 0], [-3000, 131072, 0], [1000, 1000, 0]))})
     return out
 
 
